@@ -220,7 +220,7 @@ impl Prop for C19 {
         "C19"
     }
     fn rule_text(&self) -> String {
-        "case = record (macro 1 / 2), typed history (keys held across the start and stop boundaries), stop / stop-truncate n / re-record / record-other, play, nested play of the other macro, play-while-recording (self reference), exceeding dynamic-macro-max-presses; both replay-delay behaviours; populations: 'timed' (tap-hold variants under the 'recorded' delay behaviour, hold durations >= 30 ms away from the threshold, the record key possibly still held when the first recorded key goes down after a pause: replay output = output of typing the recorded events again with the same gaps), 'identity' (every key mapped to itself: what is fed during replay = the typed list minus stop key and truncated tail, then releases of the keys still down at stop), 'remap' (differential: the replay's output key sequence equals the output of a fresh instance into which the same events are typed), 'selfplay', 'limit'. non-trivial = the replay produced output; distinct = config x history hash.".into()
+        "case = record (macro 1 / 2), typed history (keys held across the start and stop boundaries), stop / stop-truncate n / re-record / record-other, play, nested play of the other macro, play-while-recording (self reference), exceeding dynamic-macro-max-presses; both replay-delay behaviours; populations: 'timed' (tap-hold variants under the 'recorded' delay behaviour, hold durations >= 30 ms away from the threshold, the record key possibly still held when the first recorded key goes down after a pause: replay output = output of typing the recorded events again with the same gaps), 'identity' (every key mapped to itself: what is fed during replay = the typed list minus stop key and truncated tail, then releases of the keys still down at stop), 'remap' (differential: the replay's output key sequence equals the output of a fresh instance into which the same events are typed), 'selfplay', 'limit'. 2 of 8 cases record and replay with a late loop (2 / 5 ms per iteration). non-trivial = the replay produced output; distinct = config x history hash.".into()
     }
     fn runs(&self, tier: Tier) -> u64 {
         match tier {
